@@ -347,16 +347,6 @@ func c20r4(c *core.Ctx) {
 	}
 }
 
-// functions whose documented contract is to report a missing component (frozen, with reason).
-var c20NilColumnSites = map[string]string{
-	"get":                              "returns nil if the entity does not have the component (documented)",
-	"table.Has":                        "reports presence",
-	"Map.HasUnchecked":                 "reports presence",
-	"storage.getExchangeTargets":       "panics with a message naming the missing relation component",
-	"table.MatchesExact":               "skips relations on components the table does not have (source TODO)",
-	"storage.checkHasComponent":        "debug assertion",
-}
-
 func c20r5(c *core.Ctx) {
 	m := c.M
 	n := 0
@@ -379,21 +369,57 @@ func c20r5(c *core.Ctx) {
 			}
 			n++
 			name := f.Name
-			if f.Lit != nil && f.Parent != nil {
-				name = f.Parent.Name
-			}
-			base := name
-			// generated arities: MapN.HasAll
-			for _, p := range []string{"Map"} {
-				if strings.HasPrefix(name, p) && strings.HasSuffix(name, ".HasAll") {
-					base = "Map.HasUnchecked"
+			subject := fmt.Sprintf("%s: %s", name, m.ExprString(be))
+			// how is the test used? (a) as (part of) a returned boolean; (b) as the condition of an if whose
+			// nil branch returns nil / a boolean, panics or continues
+			verdict, why := "absorbed", ""
+			var encl *ast.IfStmt
+			core.InspectNoLits(f.Body, func(y ast.Node) bool {
+				if is, ok := y.(*ast.IfStmt); ok && is.Cond.Pos() <= be.Pos() && be.End() <= is.Cond.End() {
+					encl = is
+				}
+				if rs, ok := y.(*ast.ReturnStmt); ok && rs.Pos() <= be.Pos() && be.End() <= rs.End() {
+					verdict, why = "reported", "the test is the returned boolean (presence report)"
+				}
+				return true
+			})
+			if encl != nil {
+				branch := encl.Body.List
+				if be.Op == token.NEQ {
+					// `if col != nil {...}`: the nil case is the else / fall-through: accept only if nothing follows that dereferences... keep strict
+					branch = nil
+					if eb, ok := encl.Else.(*ast.BlockStmt); ok {
+						branch = eb.List
+					}
+				}
+				for _, st := range branch {
+					switch y := st.(type) {
+					case *ast.ReturnStmt:
+						okRet := len(y.Results) > 0
+						for _, r := range y.Results {
+							rs := m.ExprString(r)
+							if rs != "nil" && rs != "false" && rs != "true" {
+								okRet = false
+							}
+						}
+						if okRet {
+							verdict, why = "reported", "the nil branch returns nil/false (documented absence report)"
+						}
+					case *ast.BranchStmt:
+						if y.Tok == token.CONTINUE {
+							verdict, why = "reported", "the nil branch skips the relation (components the table does not have cannot mismatch)"
+						}
+					case *ast.ExprStmt:
+						if call, ok := y.X.(*ast.CallExpr); ok && m.IsBuiltin(call, "panic") {
+							verdict, why = "reported", "the nil branch panics"
+						}
+					}
 				}
 			}
-			subject := fmt.Sprintf("%s: %s", name, m.ExprString(be))
-			if why, ok := c20NilColumnSites[base]; ok {
-				c.OK("C20/R5", subject, c.At(be.Pos()), "documented absence report: "+why)
+			if verdict == "reported" {
+				c.OK("C20/R5", subject, c.At(be.Pos()), why)
 			} else {
-				c.Violation("C20/R5", subject, c.At(be.Pos()), fmt.Sprintf("%s tests a component column for nil: a missing component would be absorbed here, while the debug build panics in its component assertion (and the release build used to panic on the nil column); the two builds would panic on different calls", name))
+				c.Violation("C20/R5", subject, c.At(be.Pos()), fmt.Sprintf("%s tests a component column for nil and neither reports the absence (nil/false result) nor panics: a missing component is absorbed here, while the debug build panics in its component assertion (and the release build used to panic on the nil column); the two builds would panic on different calls", name))
 			}
 			return true
 		})
